@@ -297,6 +297,7 @@ func frameBytes(r *vh.Rand) ([]byte, []fieldPos) {
 		case 3:
 			cl = 20
 		}
+		fields = append(fields, fieldPos{len(b), 0}) // raw length byte
 		b = append(b, byte(cl))
 		raw(cl)
 		raw(16)
@@ -511,6 +512,14 @@ func versionOf(r *vh.Rand) uint64 {
 
 // longHeaderBytes builds a long-header packet at the byte level.
 func longHeaderBytes(r *vh.Rand) []byte {
+	b, _ := longHeaderFields(r)
+	return b
+}
+
+// longHeaderFields also returns the positions of the length fields (connection ID length bytes
+// as raw fields with n = 0, token length and Length as varints).
+func longHeaderFields(r *vh.Rand) ([]byte, []fieldPos) {
+	var fields []fieldPos
 	ver := versionOf(r)
 	first := byte(0xc0 | r.Intn(64))
 	if r.Chance(5) {
@@ -527,8 +536,10 @@ func longHeaderBytes(r *vh.Rand) []byte {
 	if r.Chance(4) {
 		sl = 21 + r.Intn(235)
 	}
+	fields = append(fields, fieldPos{len(b), 0})
 	b = append(b, byte(dl))
 	b = append(b, r.Bytes(dl)...)
+	fields = append(fields, fieldPos{len(b), 0})
 	b = append(b, byte(sl))
 	b = append(b, r.Bytes(sl)...)
 	if ver == 0 {
@@ -538,7 +549,7 @@ func longHeaderBytes(r *vh.Rand) []byte {
 		if r.Chance(10) {
 			b = append(b, r.Bytes(1+r.Intn(3))...)
 		}
-		return b
+		return b, fields
 	}
 	bits := int(first>>4) & 3
 	typ := bits // v1: 0 initial 1 0rtt 2 hs 3 retry
@@ -548,10 +559,12 @@ func longHeaderBytes(r *vh.Rand) []byte {
 	switch typ {
 	case 3: // retry: token + 16 byte tag
 		b = append(b, r.Bytes([]int{0, 1, 15, 16, 17, 30}[r.Intn(6)])...)
-		return b
+		return b, fields
 	case 0:
 		n := []int{0, 0, 5, 63, 64, 70}[r.Intn(6)]
+		o := len(b)
 		b = vi(r, b, lenField(r, n))
+		fields = append(fields, fieldPos{o, len(b) - o})
 		b = append(b, r.Bytes(n)...)
 	}
 	payload := r.Intn(30)
@@ -569,7 +582,9 @@ func longHeaderBytes(r *vh.Rand) []byte {
 			declared--
 		}
 	}
+	o := len(b)
 	b = vi(r, b, declared)
+	fields = append(fields, fieldPos{o, len(b) - o})
 	if payload > 64 {
 		payload = 64 // keep lines short: long declared lengths are exercised as short_packet
 	}
@@ -577,7 +592,7 @@ func longHeaderBytes(r *vh.Rand) []byte {
 	if r.Chance(20) {
 		b = append(b, r.Bytes(r.Intn(10))...) // coalesced rest
 	}
-	return b
+	return b, fields
 }
 
 func shortHeaderBytes(r *vh.Rand, cl int) []byte {
@@ -762,6 +777,187 @@ func hexNZ(r *vh.Rand, n int) string {
 	return hx(b)
 }
 
+// ---------------------------------------------------------------- declared-length boundaries
+
+// getVarint decodes the varint stored in b (any width).
+func getVarint(b []byte) uint64 {
+	if len(b) == 0 {
+		return 0
+	}
+	v := uint64(b[0] & 0x3f)
+	for _, x := range b[1:] {
+		v = v<<8 | uint64(x)
+	}
+	return v
+}
+
+// lenbOp sets the length field f of b to v-2 … v+2 (op `lenb`), as the last element and followed by fol.
+func lenbOp(kind string, b []byte, f fieldPos, fol []byte) string {
+	if f.n == 0 {
+		return fmt.Sprintf("lenb %s %s %d 0 %s %s", kind, hx(b[:f.off]), b[f.off], hx(b[f.off+1:]), hx(fol))
+	}
+	return fmt.Sprintf("lenb %s %s %d %d %s %s", kind, hx(b[:f.off]), getVarint(b[f.off:f.off+f.n]), f.n, hx(b[f.off+f.n:]), hx(fol))
+}
+
+func tpEnc(id uint64, v []byte) []byte {
+	b := putVarint(nil, id, vlen(id))
+	b = putVarint(b, uint64(len(v)), vlen(uint64(len(v))))
+	return append(b, v...)
+}
+
+// tpbOp: every declared-length variant of parameter (id, v) after the mandatory parameters.
+func tpbOp(pers string, id uint64, v []byte, iscidFirst bool) string {
+	var pre, fol []byte
+	iscid := tpEnc(0x0f, []byte{0xde, 0xca, 0xfb, 0xad})
+	if pers == "s" && id != 0x00 {
+		pre = append(pre, tpEnc(0x00, []byte{0xde, 0xad, 0xbe, 0xef})...)
+	}
+	if id == 0x0f {
+		fol = tpEnc(0x04, []byte{0x40, 0x64})
+	} else if iscidFirst {
+		pre = append(pre, iscid...)
+		fol = tpEnc(0x04, []byte{0x40, 0x64})
+	} else {
+		fol = iscid // the mandatory parameter only arrives in the "followed" variant
+	}
+	return fmt.Sprintf("tpb %s %s %d %s %s", pers, hx(pre), id, hx(v), hx(fol))
+}
+
+func paValue(v4, v6 []byte, cid []byte, tok []byte) []byte {
+	b := append([]byte{}, v4...)
+	b = append(b, v6...)
+	b = append(b, byte(len(cid)))
+	b = append(b, cid...)
+	return append(b, tok...)
+}
+
+func seq(n int, start byte) []byte {
+	b := make([]byte, n)
+	for i := range b {
+		b[i] = start + byte(i)
+	}
+	return b
+}
+
+// detOps are emitted as the first op of cases 16, 17, … in every tier: for every structured
+// transport parameter, frame and header with internal length structure, ALL declared-length
+// variants (value cut or padded to every length with a consistent length field; length field off by
+// -2 … +2), as the last element and followed by another one, from both perspectives.
+var detOps = func() []string {
+	var ops []string
+	pa := paValue([]byte{127, 0, 0, 1, 0, 42}, append(seq(16, 1), 13, 37), []byte{0xde, 0xad, 0xbe, 0xef}, seq(16, 0x10))
+	pa20 := paValue(make([]byte, 6), make([]byte, 18), seq(20, 0x30), seq(16, 0x50))
+	pa1 := paValue([]byte{10, 0, 0, 1, 1, 187}, make([]byte, 18), []byte{7}, seq(16, 0x70))
+	for _, pers := range []string{"s", "c"} {
+		for _, first := range []bool{true, false} {
+			for _, v := range [][]byte{pa, pa20, pa1} {
+				ops = append(ops, tpbOp(pers, 0x0d, v, first))
+			}
+			ops = append(ops, tpbOp(pers, 0x02, seq(16, 0xa0), first)) // stateless_reset_token
+			for _, id := range []uint64{0x00, 0x0f, 0x10} {         // connection IDs: empty, 4, 20 bytes (21, 22 via padding)
+				for _, n := range []int{0, 4, 20} {
+					ops = append(ops, tpbOp(pers, id, seq(n, 0xc0), first))
+				}
+			}
+			for _, id := range numericIDs { // numeric: 1-, 2-, 4-, 8-byte values
+				for _, val := range []uint64{5, 1452, 1 << 20, 1 << 40} {
+					ops = append(ops, tpbOp(pers, id, putVarint(nil, val, vlen(val)), first))
+				}
+			}
+			ops = append(ops, tpbOp(pers, 0x0c, nil, first), tpbOp(pers, 0x17f7586d2cb571, nil, first), tpbOp(pers, 27+31*5, seq(5, 1), first))
+		}
+		// a complete parameter block, parsed at every prefix
+		full := tpEnc(0x0f, seq(8, 1))
+		if pers == "s" {
+			full = append(full, tpEnc(0x00, seq(8, 9))...)
+			full = append(full, tpEnc(0x02, seq(16, 0x20))...)
+			full = append(full, tpEnc(0x10, seq(5, 0x40))...)
+			full = append(full, tpEnc(0x0d, pa)...)
+		}
+		for _, id := range numericIDs {
+			full = append(full, tpEnc(id, putVarint(nil, 2000, 2))...)
+		}
+		ops = append(ops, "cut tpdec "+pers+" "+hx(full))
+	}
+	ops = append(ops, "cut tpstdec "+hx(append([]byte{1}, tpEnc(0x04, []byte{0x40, 0x64})...)))
+
+	// frames with internal length structure
+	ctxs := []string{"A 111 3", "I 111 3", "Z 000 3"}
+	type fr struct {
+		b      []byte
+		fields []fieldPos
+	}
+	mk := func(parts ...any) fr { // []byte = raw, uint64 = varint field, int = raw length byte
+		var f fr
+		for _, p := range parts {
+			switch x := p.(type) {
+			case []byte:
+				f.b = append(f.b, x...)
+			case uint64:
+				o := len(f.b)
+				f.b = putVarint(f.b, x, vlen(x))
+				f.fields = append(f.fields, fieldPos{o, len(f.b) - o})
+			case int:
+				f.fields = append(f.fields, fieldPos{len(f.b), 0})
+				f.b = append(f.b, byte(x))
+			}
+		}
+		return f
+	}
+	frames := []fr{
+		mk([]byte{0x18}, uint64(9), uint64(3), 4, seq(4, 1), seq(16, 0x10)),                 // NEW_CONNECTION_ID
+		mk([]byte{0x18}, uint64(70), uint64(70), 20, seq(20, 1), seq(16, 0x10)),             // … 20-byte CID
+		mk([]byte{0x18}, uint64(1), uint64(0), 1, seq(1, 1), seq(16, 0x10)),                 // … 1-byte CID
+		mk([]byte{0x1c}, uint64(10), uint64(6), uint64(5), seq(5, 0x61)),                    // CONNECTION_CLOSE + reason
+		mk([]byte{0x1c}, uint64(10), uint64(6), uint64(0)),                                  // … empty reason
+		mk([]byte{0x1d}, uint64(77), uint64(64), seq(64, 0x20)),                             // application close, 2-byte length
+		mk([]byte{0x07}, uint64(6), seq(6, 0x30)),                                           // NEW_TOKEN
+		mk([]byte{0x07}, uint64(1), seq(1, 0x30)),                                           // … one byte
+		mk([]byte{0x06}, uint64(1000), uint64(7), seq(7, 0x40)),                             // CRYPTO
+		mk([]byte{0x0e}, uint64(4), uint64(100), uint64(3), seq(3, 0x50)),                   // STREAM off+len
+		mk([]byte{0x0b}, uint64(4), uint64(0), seq(0, 0)),                                   // STREAM len=0 fin
+		mk([]byte{0x31}, uint64(4), seq(4, 0x60)),                                           // DATAGRAM with length
+		mk([]byte{0x03}, uint64(100), uint64(1), uint64(2), uint64(3), uint64(1), uint64(2), uint64(0), uint64(1), uint64(7), uint64(8), uint64(9)), // ACK_ECN, 2 blocks
+		mk([]byte{0x24}, uint64(4), uint64(1), uint64(50), uint64(50)),                      // RESET_STREAM_AT
+		mk([]byte{0x12}, uint64(1<<60)),                                                     // MAX_STREAMS at the limit
+	}
+	ping := []byte{0x01}
+	for _, f := range frames {
+		for _, c := range ctxs[:2] {
+			ops = append(ops, "cut dec "+c+" "+hx(f.b))
+		}
+		for _, fp := range f.fields {
+			ops = append(ops, lenbOp("dec "+ctxs[0], f.b, fp, ping))
+		}
+	}
+
+	// long headers: Initial (v1, v2) with token, Handshake, 0-RTT, Retry, version negotiation, unknown version
+	hdr := func(first byte, ver uint32, dcid, scid []byte, rest ...any) fr {
+		parts := []any{[]byte{first, byte(ver >> 24), byte(ver >> 16), byte(ver >> 8), byte(ver)}, len(dcid), dcid, len(scid), scid}
+		return mk(append(parts, rest...)...)
+	}
+	hdrs := []fr{
+		hdr(0xc1, 1, seq(8, 1), seq(4, 9), uint64(5), seq(5, 0x70), uint64(6), seq(6, 0x80)),  // Initial v1, token, pn 2 bytes
+		hdr(0xd0, 0x6b3343cf, seq(20, 1), seq(0, 0), uint64(0), uint64(3), seq(3, 0x80)),     // Initial v2, 20-byte DCID
+		hdr(0xe3, 1, seq(4, 1), seq(20, 9), uint64(8), seq(8, 0x80)),                         // Handshake
+		hdr(0xd2, 1, seq(0, 1), seq(8, 9), uint64(20), seq(20, 0x80)),                        // 0-RTT
+		hdr(0xf0, 1, seq(8, 1), seq(8, 9), seq(6, 0x90), seq(16, 0xa0)),                      // Retry: token + tag
+		hdr(0xc0, 0, seq(8, 1), seq(8, 9), seq(8, 0xb0)),                                     // version negotiation
+		hdr(0xc0, 0xff00001d, seq(8, 1), seq(8, 9), seq(4, 0xb0)),                            // unsupported version
+	}
+	for _, h := range hdrs {
+		ops = append(ops, "cut lhdr "+hx(h.b), "cut cid 8 "+hx(h.b), "cut acid "+hx(h.b), "cut vn "+hx(h.b))
+		for _, fp := range h.fields {
+			ops = append(ops, lenbOp("lhdr", h.b, fp, seq(3, 0xe0)), lenbOp("acid", h.b, fp, seq(3, 0xe0)), lenbOp("vn", h.b, fp, seq(4, 0xe0)))
+		}
+	}
+	for _, cl := range []int{0, 8, 20} {
+		sh := append([]byte{0x43}, seq(cl+4, 1)...)
+		ops = append(ops, fmt.Sprintf("cut shdr %d %s", cl, hx(sh)), fmt.Sprintf("cut cid %d %s", cl, hx(sh)))
+	}
+	return ops
+}()
+
 // ---------------------------------------------------------------- GenOp
 
 var sweepTail = "0101010101010101010101010101010101010101010101010101010101010101"
@@ -784,8 +980,10 @@ func (rn *runner) GenOp(r *vh.Rand, i int) string {
 			return "vsweep1"
 		case c >= 10 && c <= 15:
 			return fmt.Sprintf("vsweep2 %d", []int{0x40, 0x7f, 0x3f, 0x80, 0x55, 0xc0}[c-10])
-		case rn.thorough && c >= 16 && c < 16+256:
-			return fmt.Sprintf("vsweep2 %d", c-16)
+		case c >= 16 && c < 16+len(detOps):
+			return detOps[c-16]
+		case rn.thorough && c >= 16+len(detOps) && c < 16+len(detOps)+256:
+			return fmt.Sprintf("vsweep2 %d", c-16-len(detOps))
 		}
 	}
 	switch r.Pick(22, 26, 14, 6, 6, 12, 8, 4, 2, 4) {
@@ -800,6 +998,16 @@ func (rn *runner) GenOp(r *vh.Rand, i int) string {
 	case 2: // mutated frame
 		b, fields := frameBytes(r)
 		ctx := ctxOf(r)
+		if r.Chance(30) && len(b) <= 200 { // declared-length boundaries
+			if len(fields) > 0 && r.Bool() {
+				fol, _ := frameBytes(r)
+				if len(fol) > 40 {
+					fol = fol[:40]
+				}
+				return lenbOp("dec "+ctx, b, fields[r.Intn(len(fields))], fol)
+			}
+			return "cut dec " + ctx + " " + hx(b)
+		}
 		switch r.Pick(30, 30, 25, 15) {
 		case 0: // truncations at every length
 			if len(b) <= 48 {
@@ -815,6 +1023,10 @@ func (rn *runner) GenOp(r *vh.Rand, i int) string {
 		case 1: // replace one varint field by a boundary value of the same width
 			if len(fields) > 0 {
 				f := fields[r.Intn(len(fields))]
+				if f.n == 0 {
+					b[f.off] = byte(r.Intn(256))
+					break
+				}
 				nv := val(r)
 				if vlen(nv) <= f.n {
 					copy(b[f.off:], putVarint(nil, nv, f.n))
@@ -887,6 +1099,29 @@ func (rn *runner) GenOp(r *vh.Rand, i int) string {
 			return fmt.Sprintf("vsweep2 %d", r.Intn(256))
 		}
 	case 6: // headers
+		if r.Chance(20) { // declared-length boundaries and every prefix
+			b, fields := longHeaderFields(r)
+			if len(b) > 160 {
+				b = b[:160]
+			}
+			kind := []string{"lhdr", "acid", "vn", fmt.Sprintf("cid %d", cidLen(r))}[r.Intn(4)]
+			if r.Bool() {
+				var ok []fieldPos
+				for _, f := range fields {
+					if f.off+f.n <= len(b) && f.off < len(b) {
+						ok = append(ok, f)
+					}
+				}
+				if len(ok) > 0 && !strings.HasPrefix(kind, "cid") {
+					return lenbOp(kind, b, ok[r.Intn(len(ok))], r.Bytes(r.Intn(6)))
+				}
+			}
+			if r.Chance(25) {
+				cl := cidLen(r)
+				return fmt.Sprintf("cut shdr %d %s", cl, hx(shortHeaderBytes(r, cl)))
+			}
+			return "cut " + kind + " " + hx(b)
+		}
 		switch r.Pick(30, 15, 8, 8, 8, 12, 10, 9) {
 		case 0:
 			b := longHeaderBytes(r)
@@ -968,6 +1203,37 @@ func (rn *runner) GenOp(r *vh.Rand, i int) string {
 			return fmt.Sprintf("encvn d=%s s=%s v=%s", rhex(r, r.Intn(30)), rhex(r, r.Intn(30)), v)
 		}
 	case 7: // transport parameters
+		if r.Chance(30) { // declared-length boundaries of one structured parameter
+			pers := []string{"c", "s"}[r.Pick(35, 65)]
+			var id uint64
+			var v []byte
+			switch r.Pick(35, 10, 25, 20, 10) {
+			case 0:
+				cl := []int{1, 4, 8, 20, 0, 21}[r.Pick(20, 25, 25, 20, 5, 5)]
+				v4, v6 := r.Bytes(6), r.Bytes(18)
+				if r.Chance(25) {
+					v4 = make([]byte, 6)
+				}
+				if r.Chance(25) {
+					v6 = make([]byte, 18)
+				}
+				id, v = 0x0d, paValue(v4, v6, r.Bytes(cl), r.Bytes(16))
+			case 1:
+				id, v = 0x02, r.Bytes(16)
+			case 2:
+				id, v = []uint64{0x00, 0x0f, 0x10}[r.Intn(3)], r.Bytes(cidLen(r))
+			case 3:
+				id = numericIDs[r.Intn(len(numericIDs))]
+				v = vi(r, nil, tpNumeric(r, id))
+			default:
+				id, v = []uint64{0x0c, 0x17f7586d2cb571, 27 + 31*uint64(r.Intn(50))}[r.Intn(3)], r.Bytes(r.Intn(4))
+			}
+			if r.Chance(15) {
+				sv := pers == "s"
+				return "cut tpdec " + pers + " " + hx(tpBytes(r, sv))
+			}
+			return tpbOp(pers, id, v, r.Chance(70))
+		}
 		switch r.Pick(55, 25, 10, 10) {
 		case 0:
 			sv := r.Bool()
